@@ -1118,6 +1118,12 @@ class StmtMixin(object):
             sv = self.deref(v, st)
             self.obl('unpack', st, z3.Length(sv.z) == len(target.elts))
             st.pc.append(z3.Length(sv.z) == len(target.elts))
+            so = getattr(sv, 'spec_of', None)
+            if so is not None:
+                # the list is a comprehension named by a spec sequence with one item per element: item i is that spec's element i (nth lemma)
+                sp_, ps_, n_ = so
+                for i_ in range(len(target.elts)):
+                    st.pc += [sp_.nth_instance(ps_, n_, z3.IntVal(i_)), z3.Implies(n_ > i_, sv.z[i_] == sp_.elem(*(list(ps_) + [z3.IntVal(i_)]))[0])]
             for i_, t in enumerate(target.elts): self.bind(t, wrap(sv.elem, sv.z[i_]), st)
             return
         if isinstance(target, (ast.Tuple, ast.List)):
@@ -1969,6 +1975,12 @@ class CallMixin(object):
             pieces = split_on(r.z, z3.StringVal(d[0].s))
             st.pc.append(z3.Length(pieces) >= 1)
             return [(SeqV(pieces, T.Str), st)]
+        if isinstance(r, Sc) and r.py == 'str' and name == 'split' and len(args) == 2 and isinstance(d[0], PyStr) and isinstance(d[1], Sc) and z3.is_int_value(d[1].z):
+            n_ = d[1].z.as_long()
+            self.reg.assume('A4: str.split(sep, n) = at most n+1 sep-separated pieces (uninterpreted function split_on_max; at least one piece)')
+            pieces = split_on_max(r.z, z3.StringVal(d[0].s), z3.IntVal(n_))
+            st.pc += [z3.Length(pieces) >= 1, z3.Length(pieces) <= n_ + 1]
+            return [(SeqV(pieces, T.Str), st)]
         if isinstance(r, Sc) and r.py == 'str' and name == 'strip' and not args:
             return [(Sc(strip_ws(r.z), 'str'), st)]
         if isinstance(r, PyStr):
@@ -2504,6 +2516,7 @@ def py_literal(pv, ty):
     raise Unsupported('literal of type %r' % ty)
 
 split_on = z3.Function('split_on', StrS, StrS, z3.SeqSort(StrS))
+split_on_max = z3.Function('split_on_max', StrS, StrS, IntS, z3.SeqSort(StrS))
 sqrt_fn = z3.Function('py_sqrt', RealS, RealS)      # (not 'sqrt': cvc5 reserves that symbol)
 from .spec import SpecAcc as _SpecAcc
 # reduce_fn(c, fs, t): the left fold of the first t+1 callables of fs with the combinator c
@@ -2617,6 +2630,9 @@ class Executor(Exec, ExprMixin, StmtMixin, CallMixin):
                         if isinstance(vd, NoneV): res_z = Opt(z3.BoolVal(True), wrap(inner, fresh(inner.sort(), 'none')))
                         elif isinstance(vd, Opt): res_z = vd
                         else: res_z = Opt(z3.BoolVal(False), vd)
+                    elif c.result.kind == 'Dict' and isinstance(vd, PyDict) and not vd.d:
+                        kty_, vty_ = c.result.args
+                        res_z = c.result.sort().mkdict(z3.K(kty_.sort(), z3.BoolVal(False)), fresh(z3.ArraySort(kty_.sort(), vty_.sort()), 'empty.get'))
                     elif c.result.kind == 'Set' and isinstance(vd, SymSet): res_z = vd             # contracts read .has
                     elif c.result.kind == 'ODict' and isinstance(vd, SymDict): res_z = vd          # contracts read .has / .get / .order
                     elif c.result.kind == 'ODict' and isinstance(vd, PyDict) and not vd.d:
